@@ -224,13 +224,15 @@ const preamble = `(set-option :produce-models true)
 (declare-fun sat (Str Int) Int)
 (declare-fun ssub (Str Int Int) Str)
 (declare-fun scat (Str Str) Str)
+(declare-fun strrow (Str) (Array Int Int))
+(assert (forall ((s Str) (i Int)) (! (= (select (strrow s) i) (sat s i)) :pattern ((select (strrow s) i)))))
 (declare-datatypes ((Slice 0)) (((mkslice (sref Int) (soff Int) (slen_ Int) (scap Int)))))
 (define-fun tdiv ((a Int) (b Int)) Int (ite (>= a 0) (ite (> b 0) (div a b) (- (div a (- b)))) (ite (> b 0) (- (div (- a) b)) (div (- a) (- b)))))
 (define-fun tmod ((a Int) (b Int)) Int (- a (* b (tdiv a b))))
 (define-fun wrapS ((x Int) (h Int)) Int (- (mod (+ x h) (* 2 h)) h))
 (define-fun imin ((a Int) (b Int)) Int (ite (<= a b) a b))
 (define-fun imax ((a Int) (b Int)) Int (ite (>= a b) a b))
-(define-fun subref ((r Int) (i Int) (k Int)) Int (- 0 (+ (* (ite (>= r 0) (* 2 r) (+ 1 (* (- 2) r))) 1073741824) (* i 1024) k 1)))
+(define-fun subref ((r Int) (i Int) (k Int)) Int (- 0 (+ (* (ite (>= r 0) (* 2 r) (+ 1 (* (- 2) r))) 4611686018427387904) (* i 1024) k 1)))
 (declare-fun band (Int Int) Int)
 (declare-fun bor (Int Int) Int)
 (declare-fun bxor (Int Int) Int)
